@@ -37,11 +37,12 @@ import (
 )
 
 const (
-	vpC41Slack        = 600 * time.Millisecond // scheduling slack over the requested timeout
-	vpC41LongTimeout  = 5 * time.Second        // NoHang scenarios: nothing waits, so this never elapses
-	vpC41SampleEvery  = 3 * time.Millisecond
-	vpC41PrefillProbe = 300 * time.Millisecond
-	vpC41KeyIOTimeout = "C41/poller-timeout-not-errdialtimeout"
+	vpC41Slack           = 600 * time.Millisecond // scheduling slack over the requested timeout
+	vpC41LongTimeout     = 5 * time.Second        // NoHang scenarios: nothing waits, so this never elapses
+	vpC41SampleEvery     = 3 * time.Millisecond
+	vpC41PrefillProbe    = 300 * time.Millisecond
+	vpC41OccupantTimeout = 1200 * time.Millisecond // only for slot occupants in the "longOccupants" scenarios
+	vpC41KeyIOTimeout    = "C41/poller-timeout-not-errdialtimeout"
 )
 
 // vpC41IsPollerTimeout recognises the signature of the known finding: the dial did time out, but the
@@ -498,6 +499,19 @@ func vpC41CheckDial(h *vpC41Host, dl *vpC41Dial, i int, hang bool) string {
 			return ""
 		}
 	}
+	if hang && vpKnownOpen(vpC41KeyIOTimeout) && h.nKind[vpC41KHang] > 0 && h.nKind[vpC41KRefuse] > 0 &&
+		dl.elapsed >= dl.timeout-20*time.Millisecond && dl.elapsed <= max(dl.timeout, dl.control)+vpC41Slack {
+		var up *ErrDialWithUpstream
+		if errors.As(dl.err, &up) && h.addrs[up.Upstream] == vpC41KRefuse {
+			// same known finding, second face: the hanging address's timeout was not recognised, so dial()
+			// went on to the next address with microseconds left and that one refused just in time
+			if _, known := h.addrs[up.Upstream]; known {
+				vpExclude(vpC41KeyIOTimeout)
+				dl.knownIOTimeout = true
+				return ""
+			}
+		}
+	}
 	if dl.elapsed > max(dl.timeout, dl.control)+vpC41Slack {
 		return fmt.Sprintf("%s: failed with %v after %v (limit: timeout + %v slack; control timer fired after %v)", where, dl.err, dl.elapsed.Round(time.Millisecond), vpC41Slack, dl.control.Round(time.Millisecond))
 	}
@@ -659,9 +673,19 @@ func TestVP_C41_Hang(t *testing.T) {
 		if i := rapid.IntRange(0, nHosts-1).Draw(t, "forceHangHost"); hosts[i].nKind[vpC41KHang] == 0 {
 			hosts[i] = vpC41GenHost(t, u, i, []int{vpC41KHang}, 4) // every scenario has a hanging address
 		}
+		// one scenario in ten: the slots are first taken by dials with a LONG timeout (1.2 s) to an
+		// all-hanging host, then short-timeout dials arrive. A dial that waits for a slot must still give
+		// up at its own timeout; with all timeouts in 100-300 ms the wait could never exceed the slack.
+		longOcc := rapid.IntRange(0, 9).Draw(t, "longOccupants") == 0
+		if longOcc && hosts[0].nKind[vpC41KHang] != len(hosts[0].ips) {
+			hosts[0] = vpC41GenHost(t, u, 0, []int{vpC41KHang}, 4)
+		}
 		d, _ := vpC41NewDialer(t, hosts, conc)
 		defer d.FlushDNSCache()
 		nd := rapid.IntRange(1, 24).Draw(t, "dials")
+		if longOcc {
+			nd = max(nd, conc+rapid.IntRange(1, 6).Draw(t, "victims"))
+		}
 		if rapid.IntRange(0, 2).Draw(t, "overload") == 0 {
 			nd = max(nd, conc+rapid.IntRange(1, 8).Draw(t, "extra")) // more dials than slots
 		}
@@ -675,6 +699,15 @@ func TestVP_C41_Hang(t *testing.T) {
 			}
 			if !sameStart {
 				dials[i].delay = time.Duration(rapid.IntRange(0, 60).Draw(t, "delayMs")) * time.Millisecond
+			}
+		}
+		if longOcc {
+			for i := range dials {
+				if i < conc {
+					dials[i].host, dials[i].timeout, dials[i].delay = 0, vpC41OccupantTimeout, 0
+				} else {
+					dials[i].delay = time.Duration(40+rapid.IntRange(0, 40).Draw(t, "victimDelayMs")) * time.Millisecond
+				}
 			}
 		}
 		// observer
@@ -772,6 +805,9 @@ func TestVP_C41_Hang(t *testing.T) {
 		}
 		sort.Strings(shapes)
 		class := "hang/"
+		if longOcc {
+			class = "hang/long-occupants/"
+		}
 		switch {
 		case nd > conc && maxSeen == conc:
 			class += "more-dials-than-slots-bound-reached"
